@@ -21,8 +21,9 @@ CFG = {'lean_modules': ['ObiVerif.Props.C06'],
                'uniq_noSingleton + uniq_total_noSingleton (--no-singleton removes exactly the outputs of count 1 = classes of total 1; total minus one per such class), '
                'uniq_perm (for every permutation of the input and every pair of chunk functions each output of one run has an output with equal key, count, merged_ '
                'weights and annotation set in the other run), demerge_spec / demerge_counts (obidemerge yields one record per entry of merged_<k> with that value and '
-               'that count, the weights being the summed contributions), demerge_uniq (dereplicating the demerged output again gives, per key, the same merged_<k> '
-               'weights — see evidence for the exact statement proved). The model is tied to the code by running both on the same case lines: the canonical result '
+               'that count, the weights being the summed contributions), demerge_uniq (for -m k alone, k not a category: dereplicating the demerged output again, with any '
+               'chunk function, yields for the key of every first-round output a record with the same merged_<k> weights and count = sum of the weights; hypotheses: '
+               'the map is non-empty with entries >= 1). The model is tied to the code by running both on the same case lines: the canonical result '
                '(records sorted; key, count, kept annotations, requested merged_ maps) must agree byte for byte, in memory and on disk, for every worker count.',
  'level_note': 'Trusted: Lean kernel; the transcription Model/Uniq.lean. The functional model has no goroutines: the independence from worker count, memory/disk mode and '
                'the scheduling is *proved* only in the form "the result does not depend on the order of the input nor on the chunk function" (uniq_perm), which covers every '
@@ -31,7 +32,9 @@ CFG = {'lean_modules': ['ObiVerif.Props.C06'],
                'its result (classes in order of first appearance, members in batch order), not loop by loop. The FASTA/JSON round trip of the on-disk mode is property '
                'C02; here it is covered by correspondence only. The representative (id, unrequested merged_ maps, qualities) and the output order are not claimed.',
  'trusted_base': LEAN_TB + ['recount oracle of harness/c06.go (Go maps)', 'hash/crc32.ChecksumIEEE = bitwise CRC-32 of Model/Uniq.lean (checked by the dispatch cases)',
-                            'os temp directory semantics for the on-disk mode'],
+                            'os temp directory semantics for the on-disk mode',
+                            'github.com/goccy/go-json (its unsynchronised lazy decoder cache is warmed up single-threaded in the harness: concurrent first use by the '
+                            'header-parsing workers kills about one fresh process in 10^4 with a nil dereference in internal/decoder/map.go — library defect, not C06)'],
  'modelled': 'pkg/obiseq/merge.go (StatsOn, StatsPlusOne, StatsOnValues.Merge, BioSequence.Merge, BioSequenceSlice.Merge), pkg/obiseq/class.go (HashClassifier, '
              'SequenceClassifier, AnnotationClassifier as equality of values), pkg/obichunk (ISequenceChunk[OnDisk] as grouping by hash code, ISequenceSubChunk, the ff '
              'closure of IUniqueSequence incl. the singleton shortcut and --no-singleton), pkg/obiiter/merge.go (IMergeSequenceBatch), pkg/obitools/obidemerge '
